@@ -129,4 +129,25 @@ def targeted():
                                                  {"id": "t3", "type": "VoteUpdate", "from": "o2", "args": {"pub": "v2", "height": "h+2", "version": "v320"}},
                                                  {"id": "t4", "type": "VoteUpdate", "from": "o1", "args": {"pub": "v1", "height": "h+2", "version": "v320"}}]},
                          {"op": "skip", "n": 4}])
+    # exits from the waitlist (genesis: a1 has 70 BIP waiting at v1, a2 15 BIP at v3): unbond and move, towards candidates, ghosts and itself
+    for who, frm, val in (("a1", "v1", "70u"), ("a1", "v1", "30u"), ("a1", "v1", "71u"), ("a2", "v3", "15u")):
+        for to in ("v2", "ghost", frm):
+            sc("move-waitlist-%s-%s-%s" % (who, val, to), [{"op": "block", "txs": [{"id": "t1", "type": "MoveStake", "from": who, "args": {"from": frm, "to": to, "coin": "BIP", "value": val}}]},
+                                                            {"op": "skip", "n": 176, "quiet": True}, {"op": "skip", "n": 4}])
+        sc("unbond-waitlist-%s-%s" % (who, val), [{"op": "block", "txs": [{"id": "t1", "type": "Unbond", "from": who, "args": {"pub": frm, "coin": "BIP", "value": val}}]}, {"op": "skip", "n": 3}])
+    # competing proposals of every vote kind, in both orders of creation (the first vote creates the proposal)
+    def vote(kind, v, what):
+        args = {"pub": v, "height": "h+2"}
+        if kind == "VoteUpdate":
+            args["version"] = ["v320", "v330"][what]
+        else:
+            args["variant"] = what + 1
+        return {"id": "x%s%d" % (v, what), "type": kind, "from": OWNER[v], "args": args}
+    for kind in ("VoteUpdate", "VoteCommission"):
+        # stakes: v1 1000, v2 2000, v3 3000, v4 4000 (total 10000): v2+v3+v4 = 90%, v1 = 10%
+        for name, order in (("minority-first", [("v1", 0), ("v2", 1), ("v3", 1), ("v4", 1)]), ("majority-first", [("v2", 1), ("v3", 1), ("v4", 1), ("v1", 0)]),
+                            ("interleaved", [("v4", 1), ("v1", 0), ("v3", 1), ("v2", 1)]), ("split", [("v4", 0), ("v3", 1), ("v2", 1), ("v1", 0)]),
+                            ("three-way", [("v1", 0), ("v4", 1), ("v2", 0), ("v3", 1)])):
+            sc("%s-competing-%s" % (kind, name), [{"op": "block", "txs": [vote(kind, v, w) for v, w in order]}, {"op": "skip", "n": 2},
+                                                    {"op": "block", "txs": [{"id": "s1", "type": "Send", "from": "a1", "args": {"coin": "BIP", "to": "a2", "value": "1u"}}]}, {"op": "skip", "n": 2}])
     return S
